@@ -317,9 +317,18 @@ func propC10NthMatch(t *rapid.T) {
 	withPos := rapid.Bool().Draw(t, "withPos")
 	qtext := oracle.RenderTerm(oracle.Term{Kind: kind, Body: body}, false)
 	algo.Init("default")
-	pat := BuildPattern(NewChunkCache(), map[string]*Pattern{}, true, fuzzyAlgo, true, CaseSmart, true, forward, withPos, false, rs, ds.d, revision{}, []rune(qtext), nil)
 	item := vItem(line, 0)
 	slab := util.MakeSlab(slab16Size, slab32Size)
+	rev := revision{}
+	if rapid.Bool().Draw(t, "nthChangedBefore") {
+		// the item was searched before with another --nth (change-nth: the coordinator bumps the minor revision)
+		s0 := rapid.SampledFrom([]string{"1", "2", "-1", "2..", ".."}).Draw(t, "earlierRange")
+		r0, _ := ParseRange(&s0)
+		pat0 := BuildPattern(NewChunkCache(), map[string]*Pattern{}, true, fuzzyAlgo, true, CaseSmart, true, forward, withPos, false, []Range{r0}, ds.d, rev, []rune(qtext), nil)
+		pat0.MatchItem(item, withPos, slab)
+		rev.bumpMinor()
+	}
+	pat := BuildPattern(NewChunkCache(), map[string]*Pattern{}, true, fuzzyAlgo, true, CaseSmart, true, forward, withPos, false, rs, ds.d, rev, []rune(qtext), nil)
 	res, offsets, pos := pat.MatchItem(item, withPos, slab)
 
 	// model: the term has a witness inside one of the selected texts
